@@ -416,7 +416,15 @@ func runC13(c *Ctx) error {
 				return err
 			}
 			spec := pingSpec{from: id, dst: self, msgType: frame.RouterPing, pingType: "pong", seqTime: nextCraftTime(), rawHdr: true, hdrHash: id.Hash, hdrType: id.Type, hdrKey: id.PublicKey}
-			switch c.Rng.IntN(6) {
+			switch c.Rng.IntN(8) {
+			case 5, 6:
+				// an identity that is consistent in itself (the source address IS the digest of the key
+				// material) but whose key has the wrong length for its type: it must be refused before
+				// anybody tries to verify a signature with it
+				odd := craftOddKey([]int{16, 31, 33, 48, 64}[c.Rng.IntN(5)])
+				spec.src = odd.IP
+				spec.hdrHash, spec.hdrType, spec.hdrKey = odd.Hash, odd.Type, odd.PublicKey
+				c.Count("first-contact:self-consistent-odd-key")
 			case 0:
 				spec.hdrHash = crop.Hash("MD5-ISH")
 			case 1:
